@@ -104,6 +104,7 @@ func (n *RawNode) newContext() context.Context {
 // close this node.
 func (n *RawNode) close() error {
 	// important to cancel first to stop goroutines
+	vEmit("NodeCancelBegin", n.id, 0)
 	if n.cancel != nil {
 		n.cancel()
 	}
